@@ -107,6 +107,84 @@ func check(raw json.RawMessage) error {
 	return nil
 }
 
+// History: several write/read round trips through ONE writer and ONE reader instance,
+// interleaved with reads that fail (blank image, symbol cut short, another symbology).
+// Every well-formed step must give what a fresh reader gives.
+type HStep struct {
+	Case  Case   `json:"case"`
+	Noise string `json:"noise,omitempty"` // "", blank, cut, foreign: read this before the step's own image
+}
+type History struct {
+	Sym   string  `json:"sym"`
+	Steps []HStep `json:"steps"`
+}
+
+func checkHistory(raw json.RawMessage) error {
+	var h History
+	if err := json.Unmarshal(raw, &h); err != nil {
+		return fmt.Errorf("hx: %v", err)
+	}
+	s := onedx.SymByName(h.Sym)
+	if s == nil {
+		return fmt.Errorf("hx: unknown symbology %q", h.Sym)
+	}
+	w, r := s.Writer(), s.Reader()
+	for i, st := range h.Steps {
+		c := st.Case
+		desc := fmt.Sprintf("step %d of %d on one %s writer/reader: content=%q requested %dx%d margin=%d after noise %q", i+1, len(h.Steps), h.Sym, c.Content, c.ReqW, c.ReqH, c.Margin, st.Noise)
+		hints := map[gozxing.EncodeHintType]interface{}{}
+		if c.Margin >= 0 {
+			hints[gozxing.EncodeHintType_MARGIN] = c.Margin
+		}
+		bm, err := w.Encode(c.Content, s.Format, c.ReqW, c.ReqH, hints)
+		if err != nil {
+			return fmt.Errorf("writer refused accepted content: %v [%s]", err, desc)
+		}
+		fresh, err := encode(c)
+		if err != nil {
+			return fmt.Errorf("hx: fresh writer refused: %v", err)
+		}
+		if bm.GetWidth() != fresh.GetWidth() || bm.GetHeight() != fresh.GetHeight() || bm.String() != fresh.String() {
+			return fmt.Errorf("the reused writer produced a different %dx%d image than a fresh writer (%dx%d) [%s]", bm.GetWidth(), bm.GetHeight(), fresh.GetWidth(), fresh.GetHeight(), desc)
+		}
+		if st.Noise != "" {
+			var nz *gozxing.BitMatrix
+			switch st.Noise {
+			case "blank":
+				nz, _ = gozxing.NewBitMatrix(bm.GetWidth(), bm.GetHeight())
+			case "cut":
+				nz, _ = gozxing.NewBitMatrix(bm.GetWidth(), bm.GetHeight())
+				for y := 0; y < bm.GetHeight(); y++ {
+					for x := 0; x < bm.GetWidth()*2/3; x++ {
+						if bm.Get(x, y) {
+							nz.Set(x, y)
+						}
+					}
+				}
+			default:
+				other := "CODE128"
+				if h.Sym == "CODE128" {
+					other = "CODE39"
+				}
+				nz, _ = encode(Case{Sym: other, Content: "1234", Margin: -1, ReqH: 5})
+			}
+			if nz != nil {
+				nb, _ := gozxing.NewBinaryBitmapFromImage(nz)
+				r.Decode(nb, nil) // outcome irrelevant; it must not influence the next read
+			}
+		}
+		bmp, _ := gozxing.NewBinaryBitmapFromImage(bm)
+		res, err := r.Decode(bmp, nil)
+		if err != nil {
+			return fmt.Errorf("reused reader failed on the %dx%d image: %v [%s]", bm.GetWidth(), bm.GetHeight(), err, desc)
+		}
+		if res.GetText() != c.Canonical || res.GetBarcodeFormat() != s.Format {
+			return fmt.Errorf("reused reader read %q (%v), expected %q [%s]", res.GetText(), res.GetBarcodeFormat(), c.Canonical, desc)
+		}
+	}
+	return nil
+}
+
 // RejectCase: malformed content that the writer must refuse.
 type RejectCase struct {
 	Sym     string `json:"sym"`
@@ -189,6 +267,7 @@ func TestCheck(t *testing.T) {
 	hx.Main(t, "C03", func(c *hx.Ctx) {
 		c.Register("oned_roundtrip", check)
 		c.Register("oned_reject", checkReject)
+		c.Register("oned_history", checkHistory)
 		c.RegisterMatcher("upce-trailing-quiet-zone", func(raw json.RawMessage, err error) bool {
 			var cs Case
 			if json.Unmarshal(raw, &cs) != nil {
@@ -226,6 +305,46 @@ func TestCheck(t *testing.T) {
 				raw, _ := json.Marshal(cs)
 				c.Note(sub, cl, true, hx.Hash(raw), func() any { return cs })
 				if err := c.Eval("oned_roundtrip", cs); err != nil {
+					t.Fatalf("%v", err)
+				}
+			})
+		}
+		// histories on one writer and one reader instance per symbology
+		for si := range onedx.Syms {
+			s := &onedx.Syms[si]
+			c.RapidIdx("instance_histories", 100+si, c.N(60, 1500), 0, func(t *rapid.T) {
+				h := History{Sym: s.Name}
+				n := rapid.IntRange(2, 5).Draw(t, "steps")
+				noisy, margins := 0, map[int]bool{}
+				for i := 0; i < n; i++ {
+					rng := hx.NewRng(rapid.Uint64().Draw(t, "content"))
+					content, canon, _ := onedx.Content(s.Name, rng)
+					cs := Case{Sym: s.Name, Content: content, Canonical: canon, Margin: -1}
+					geometry(t, &cs, s)
+					if upceTrailingQuiet(cs) {
+						c.Exclude("upce-trailing-quiet-zone: margin raised to 13")
+						cs.Margin = 13
+						if upceTrailingQuiet(cs) {
+							cs.ReqW = 0
+						}
+					}
+					st := HStep{Case: cs, Noise: rapid.SampledFrom([]string{"", "", "blank", "cut", "foreign"}).Draw(t, "noise")}
+					if st.Noise != "" {
+						noisy++
+					}
+					margins[cs.Margin] = true
+					h.Steps = append(h.Steps, st)
+				}
+				cl := s.Name
+				if noisy > 0 {
+					cl += ";failed_reads_between"
+				}
+				if len(margins) > 1 {
+					cl += ";margin_hint_changes"
+				}
+				raw, _ := json.Marshal(h)
+				c.Note("instance_histories", cl, noisy > 0 || len(margins) > 1, hx.Hash(raw), func() any { return h })
+				if err := c.Eval("oned_history", h); err != nil {
 					t.Fatalf("%v", err)
 				}
 			})
